@@ -481,6 +481,32 @@ func genC18(g *G) {
 			g.emit("vrf.setbytes", hx(append(append([]byte(nil), x...), pi[32:]...)))
 		}
 	}
+	// the high-y family: y just below 2^255 with exactly one of the bytes 1..30 different from 0xff — canonical encodings
+	// (y < p) that a canonicity test skipping that byte would reject; about half are on the curve
+	{
+		priv := vrf.NewKeyFromSeed(g.r.bytes(32))
+		alpha := g.r.bytes(8)
+		pi := vrf.Prove(priv, alpha).Bytes()
+		pk := []byte(priv[32:])
+		for k := 1; k <= 30; k++ {
+			for _, v := range []byte{0x00, 0x7f, 0xfe} {
+				for _, b0 := range []byte{0xec, 0xed, 0xee, 0xf3, 0xff} {
+					for _, b31 := range []byte{0x7f, 0xff} {
+						if !g.thorough && g.r.intn(4) != 0 {
+							continue
+						}
+						x := bytes.Repeat([]byte{0xff}, 32)
+						x[0], x[k], x[31] = b0, v, b31
+						g.emit("vrf.setbytes", hx(append(append([]byte(nil), x...), pi[32:]...)))
+						if g.r.intn(4) == 0 {
+							g.emit("vrf.verify", hx(x), hx(alpha), hx(pi))
+							g.emit("vrf.verify", hx(pk), hx(alpha), hx(append(append([]byte(nil), x...), pi[32:]...)))
+						}
+					}
+				}
+			}
+		}
+	}
 	// alphas needing several try-and-increment rounds: search for them with the real hash
 	found := 0
 	for i := 0; found < 3 && i < 4000; i++ {
